@@ -168,7 +168,8 @@ def sweep_seqs(seqs):
 def conc_for(seed, i):
     rnd = random.Random(seed * 1000003 + i)
     return {"tsmap": rnd.randrange(3), "dtype": rnd.randrange(4), "vtype": rnd.randrange(3),
-            "filecap": rnd.choice([0, 64, 40, 17, 200]), "persist": rnd.randrange(2), "gcthresh": rnd.randrange(2), "iter": 0}
+            "filecap": rnd.choice([0, 64, 40, 17, 200]), "persist": rnd.randrange(3), "gcthresh": rnd.randrange(2), "iter": 0,
+            "noempty": True}   # sample identities are decoded from the bytes: no zero-length variable samples
 
 
 def bounds_choices(maxt):
